@@ -34,13 +34,21 @@ def graph_spec(rules):
     return undefined, cyclic
 
 
-def impl_check(rules, skip_undefined=False):
+def impl_check(rules, skip_undefined=False, pre=None):
     from oslo_config import cfg
     from oslo_policy import policy
     from world import fresh_conf
     e = policy.Enforcer(fresh_conf(), policy_file='policy.yaml', use_conf=False)
     e.skip_undefined_check = skip_undefined
-    e.set_rules(policy.Rules.from_dict(rules), use_conf=False)
+    if pre is not None:
+        # the same enforcer validated an earlier state of the store, then some rules were redefined IN PLACE
+        first = dict(rules)
+        first.update(pre)
+        e.set_rules(policy.Rules.from_dict(first), use_conf=False)
+        e.check_rules()
+        e.set_rules(policy.Rules.from_dict({n: rules[n] for n in pre}), overwrite=False, use_conf=False)
+    else:
+        e.set_rules(policy.Rules.from_dict(rules), use_conf=False)
     ok = e.check_rules()
     names = []
     try:
@@ -125,6 +133,22 @@ def run(run, binfo):
                               'analysis says cyclic=%r' % (rs, (ok2, names2), s_cyc),
                               {'kind': 'failing-input', 'suite': 'spec-c13', 'input': {'rules': rs, 'skip_undefined_check': True},
                                'expected': [not s_cyc, s_cyc], 'observed': [ok2, names2]})
+        if (s_und or s_cyc) and run.evaluations % 2 == 0:
+            # validation judges the store as it is NOW: the same names were harmless constants when it was last validated
+            # (only SOME of the referring rules: the others are walked, and walk into them, both times)
+            withrefs = sorted(n for n in rs if refs_of(rs[n]))
+            pre = {n: 'role:x' for i, n in enumerate(withrefs) if (i + run.evaluations // 2) % 2 == 0}
+            if len(pre) == len(withrefs) and len(withrefs) > 1:
+                pre.pop(withrefs[0])
+            if pre:
+                ok3, names3 = impl_check(rs, pre=pre)
+                if (ok3, names3) != (not (s_und or s_cyc), s_und + s_cyc):
+                    run.violation('validation:after-redefinition', 'check_rules on %r (rules %r redefined in place after an '
+                                  'earlier validation) reports %r, graph analysis says undefined=%r cyclic=%r'
+                                  % (rs, sorted(pre), (ok3, names3), s_und, s_cyc),
+                                  {'kind': 'failing-input', 'suite': 'spec-c13',
+                                   'input': {'rules': rs, 'redefined_in_place': sorted(pre)},
+                                   'expected': [not (s_und or s_cyc), s_und + s_cyc], 'observed': [ok3, names3]})
         if s_und or s_cyc:
             run.nontrivial.add(repr(sorted(rs.items())))
         if ok:
